@@ -18,6 +18,11 @@ Record grun := mkgrun {
   r_start : Z;        (* global generator state at the run's first draw *)
   r_trace : Z;        (* the whole sequence (np.random function, global state before the call) of the run's draws and re-seedings *)
   r_end : Z;          (* global generator state when the run returned *)
+  r_gaps : Z;         (* how often the global generator was found in another state than the previous recorded call
+                         (or the entry of the run) had left it, the return of the run included: 0 = every change of
+                         the global generator during the run went through a recorded call *)
+  r_private : Z;      (* generators created (np.random.default_rng / RandomState) and calls of the stdlib `random`
+                         module during the run: randomness that does not come from the global generator *)
   r_out : list Z      (* outputs: .bp bytes, genotype content (+ annotations) *)
 }.
 Record gcase := mkg {
@@ -47,9 +52,13 @@ Definition same_draws (c : gcase) : bool :=
   | None => true
   end.
 
+(* the model's simulators draw from the global generator only and every state of a run is
+   linked to the previous one by a draw (C10_trace_linked) *)
+Definition only_global (r : grun) : bool := (r_gaps r =? 0) && (r_private r =? 0).
+
 Definition check_genotype (c : gcase) : bool * bool :=
   ((model_start c (g_a c) =? r_start (g_a c)) && (model_start c (g_b c) =? r_start (g_b c))
-   && same_draws c,
+   && same_draws c && only_global (g_a c) && only_global (g_b c),
    holds_genotype c).
 
 (* ---------------- simphenotype *)
@@ -58,7 +67,11 @@ Record prun := mkprun {
   p_steps : list (Z * Z);      (* its state before / after each replicate *)
   p_out : list Z;              (* .pheno bytes *)
   p_cols : list Z;             (* the replicate columns of the written file (quantitative trait) resp. the noise vectors drawn (case/control) *)
-  p_noisy : bool               (* every replicate had noise variance > 0 and >= 2 samples *)
+  p_noisy : bool;              (* every replicate had noise variance > 0 and >= 2 samples *)
+  p_glob : Z;                  (* calls of the legacy np.random API during the run + 1 if the global generator's
+                                  state changed: simphenotype leaves the global generator alone (pheno_cmd) *)
+  p_rngs : Z                   (* generators created during the run (default_rng / RandomState) + calls of the
+                                  stdlib `random` module: exactly the one of PhenoSimulator.__init__ *)
 }.
 Record pcase := mkp {
   p_seed : option Z;
@@ -86,7 +99,8 @@ Fixpoint nodupb (l : list Z) : bool :=
 
 Definition agree_prun (seed : option Z) (ref : Z) (r : prun) : bool :=
   match seed with Some _ => p_start r =? ref | None => true end
-  && zl_eqb (model_starts seed ref r) (map fst (p_steps r)).
+  && zl_eqb (model_starts seed ref r) (map fst (p_steps r))
+  && (p_glob r =? 0) && (p_rngs r =? 1).
 
 Definition holds_phenotype (c : pcase) : bool :=
   match p_seed c with
